@@ -4,9 +4,9 @@ import (
 	"bytes"
 	"fmt"
 	"hash/fnv"
-	"sync/atomic"
 	"sort"
 	"sync"
+	"sync/atomic"
 	"testing"
 	"testing/synctest"
 	"time"
